@@ -54,7 +54,7 @@ def relevant(prop, rec, res):
     engine_pre = kind == "pre" and "engine forwarded" in res["label"]
     if prop == "C13":
         return kind in ("noglobal", "lemma") or engine_pre or (kind == "post" and "engines.core" in rec["func"])
-    if engine_pre and prop not in ("C01", "C03"):
+    if engine_pre and prop not in ("C01", "C03", "C07"):
         return False
     return True
 
